@@ -175,6 +175,15 @@ def run(ctx, prop):
             if E.verdict_of(model) != E.verdict_of(impl) or E.lines_with(model, "struct", "stype") != E.lines_with(impl, "struct", "stype"):
                 a, b = C.diff_facts(E.lines_with(model, "struct", "stype"), E.lines_with(impl, "struct", "stype"))
                 disagree.append({"case": case, "only_model": a[:5], "only_impl": b[:5]})
+            if origin == "raw":
+                # the library entry point (build scripts) must take the same decision: a struct
+                # that needs padding is refused there too
+                from .validation import lib_verdict
+                lv = lib_verdict(ctx, case, root)
+                hist["lib_checked"] = hist.get("lib_checked", 0) + 1
+                if (lv == "ok") != (E.verdict_of(impl) == "accept"):
+                    oracle_fail.append({"case": case, "failures": [{"error": "command-line and library entry points disagree on a struct layout",
+                                                                    "cli": E.verdict_of(impl), "lib": lv}]})
             if E.verdict_of(impl) != "accept":
                 if origin == "raw":
                     hist["raw_rejected"] += 1
